@@ -13,7 +13,9 @@ res = {}
 def run_equiv():
     local = os.path.join(scratch, "_equiv_under_test.py"); shutil.copy(equiv, local)
     p = subprocess.run(["/venv/bin/python", "-W", "ignore", local], cwd=scratch, capture_output=True, text=True, env={**os.environ, "PYTHONPATH": scratch}, timeout=1200)
-    out = "\n".join(l for l in p.stdout.splitlines() if "INFO" not in l and "Numba" not in l and l.strip() and not l.startswith(("*", ".", "http")))
+    import re
+    # the verdict is the digest the script prints; log lines (with timestamps) are not part of it
+    out = "\n".join(l for l in p.stdout.splitlines() if re.search(r"[0-9a-f]{40,64}", l) or re.match(r"^(items|outputs|digest|observations)\b", l.strip()))
     return p.returncode, out[-1500:]
 try:
     res["clean_rc"], res["clean_out"] = run_equiv()
